@@ -1056,6 +1056,8 @@ pub struct MpcMsg {
 pub enum MpcMsgError {
     #[error("polytune engine is unreachable")]
     Unreachable,
+    #[error("message from unknown party {0}")]
+    UnknownParty(usize),
 }
 
 impl<B, C> PolicyState<B, C>
@@ -1065,7 +1067,13 @@ where
 {
     #[tracing::instrument(level = Level::TRACE, skip(self, ret))]
     async fn msg(&self, mpc_msg: MpcMsg, ret: Ret<MpcMsgError>) -> ControlFlow<()> {
-        match self.channel_senders[mpc_msg.from].send(mpc_msg.data).await {
+        // The sender index comes from an unauthenticated request and the channels only exist
+        // once a policy has been scheduled, so it must not be used to index unchecked.
+        let Some(sender) = self.channel_senders.get(mpc_msg.from) else {
+            ret_err(ret, MpcMsgError::UnknownParty(mpc_msg.from));
+            return ControlFlow::Continue(());
+        };
+        match sender.send(mpc_msg.data).await {
             Ok(_) => {
                 let _ = ret.send(Ok(()));
                 ControlFlow::Continue(())
